@@ -52,6 +52,7 @@ class QModel:
         self.qfields = qf
         # worker ADT: Arc<_> field of the handle whose ADT owns a Sender and a Receiver
         self.worker = None
+        self.task_trait = None
         for f in qf:
             inner = arc_inner(f['ty'])
             if inner and inner in cad.adts:
@@ -68,6 +69,22 @@ class QModel:
         rcv = [x for x in wf if x['ty'].startswith(RECEIVER)]
         task = [x for x in wf if any(x['ty'].replace('(', '', 1).startswith(p_ + '<dyn core::ops::function::Fn') and x['ty'].startswith(p_ + '<')
                                      for p_ in ('alloc::boxed::Box', 'alloc::sync::Arc'))]
+        if not task:
+            # the task behind a private trait with one blanket impl for closures (`trait Task { fn process(&self, v: String); }`,
+            # `impl<F: Fn(String) + ..> Task for F`): calls of its method are devirtualised to that impl by the inliner
+            import re as _re
+            for x in wf:
+                m_ = _re.match(r'^(alloc::boxed::Box|alloc::sync::Arc)<\(?dyn ([A-Za-z0-9_:]+)', x['ty'])
+                if m_:
+                    if True:
+                        tr_ = m_.group(2)
+                        tinfo = getattr(cad, 'traits', {}).get(tr_)
+                        ims = [i for i in cad.impls_of(tr_) if not i.get('negative')] if tinfo else []
+                        if tinfo and tinfo.get('reachable') is False and len(ims) == 1 and \
+                                any('core::ops::function::Fn<(alloc::string::String,)>' in str(pr).replace(' ', '') or 'Fn(alloc::string::String)' in str(pr).replace(' ', '')
+                                    for pr in ims[0].get('predicates', [])):
+                            task.append(x)
+                            self.task_trait = tr_
         if len(snd) != 1 or len(rcv) != 1 or len(task) != 1:
             rep.anchor_lost('Q0', 'worker fields sender/receiver/task (%d/%d/%d)' % (len(snd), len(rcv), len(task)))
             return
